@@ -132,6 +132,13 @@ CHECKS['C17'] = dict(
          'missing header / empty file / non-numeric cells must raise the documented error naming the physical file line; the real EEMSWrite.execute must emit the header of result names in the listed order and one row per cell with the cell values. Bit-exact float text round trip is only exercised concretely on 11 extreme doubles (supplementary).',
     note='Trusted: z3, symnp, S-open/csv stubs (validated per path against the real csv module and numpy); known finding: masked cells are written as "--" (known_findings.json).',
     ref='DESIGN.md §5 C17')
+CHECKS['C18'] = dict(
+    technique='symbolic execution of the real netcdf/io.py EEMSRead (through Command.run) on the symbolic numpy with netCDF4 stubbed by arbitrary symbolic masked variables; read-option obligations decided by z3; every path model replayed on a real NetCDF file; write/read-back exercised concretely with the real library',
+    text='Partial claim. Solver-decided: for DataType in {omitted, Float, Integer, Positive Float, Positive Integer, Fuzzy} x float/int variables x symbolic MissingValue, the result has the documented element type (float by default), values as stored (rounded half-to-even for integer types, clamped for Fuzzy), '
+         'is missing exactly where the file is missing or the value equals MissingValue, negative data are rejected exactly for the Positive types and out-of-range data exactly for Fuzzy, a missing variable is NoSuchVariable. '
+         'Exercised, not proved: grids of rank 1-3 (incl. length-1 axes), float/int, 1-2 results, 4 missing-cell placements are written by the real EEMSWrite and read back through the real netCDF4/HDF5 library: shape, element kind, values, union mask and copied dimension variables are compared.',
+    note='Trusted: z3, symnp, S-nc stub (validated per path against real netCDF4 files); the netCDF4/HDF5 C library is outside the solver (stated in evidence).',
+    ref='DESIGN.md §5 C18')
 NOT_YET = {}
 ALL = ['C%02d' % i for i in range(1, 21)]
 
